@@ -218,6 +218,26 @@ func mutationsOf(seed []byte) []edit {
 			eds = append(eds, edit{off: 0, del: len(seed), ins: emptiedConsistently(seed, nodes, i), desc: fmt.Sprintf("empty@%d(T=%#x L=%d), enclosing lengths adjusted", nd.tOff, nd.typ, nd.length)})
 		}
 	}
+	// (1") malformed content inside a well-formed envelope: the value of every nested element is
+	// replaced by a malformed TLV (type only, length beyond the element, truncated multi-byte
+	// type/length forms, huge lengths, a length one short) with every enclosing length adjusted:
+	// the packet still decodes and only code that looks inside the element (lazy accessors) sees it
+	for i, nd := range nodes {
+		if nd.parent < 0 {
+			continue
+		}
+		tb, cv := []byte{0x08}, seed[nd.vOff:nd.end]
+		for _, ch := range nodes {
+			if ch.parent == i {
+				tb, cv = seed[ch.tOff:ch.lOff], seed[ch.vOff:ch.end]
+				break
+			}
+		}
+		for k, nv := range malformedValues(tb, cv) {
+			eds = append(eds, edit{off: 0, del: len(seed), ins: replacedConsistently(seed, nodes, i, nv),
+				desc: fmt.Sprintf("value@%d(T=%#x L=%d) := malformed#%d %x, enclosing lengths adjusted", nd.tOff, nd.typ, nd.length, k, nv)})
+		}
+	}
 	// (2) truncation at every offset
 	for k := 0; k < len(seed); k++ {
 		eds = append(eds, edit{off: k, del: len(seed) - k, desc: fmt.Sprintf("truncate@%d", k)})
@@ -257,12 +277,49 @@ func mutationsOf(seed []byte) []edit {
 	return eds
 }
 
-// emptiedConsistently rebuilds the seed with node i emptied and the length of every ancestor
-// re-encoded (minimal width) so that the result is well-formed.
+// emptiedConsistently: node i emptied, enclosing lengths adjusted.
 func emptiedConsistently(seed []byte, nodes []tlvNode, i int) []byte {
+	return replacedConsistently(seed, nodes, i, nil)
+}
+
+// malformedValues: byte strings that are not a well-formed TLV, built around a type tb and a value cv.
+func malformedValues(tb, cv []byte) [][]byte {
+	cat := func(parts ...[]byte) []byte {
+		var o []byte
+		for _, p := range parts {
+			o = append(o, p...)
+		}
+		return o
+	}
+	short := cv
+	if len(short) > 0 {
+		short = short[:len(short)-1]
+	}
+	return [][]byte{
+		cat(tb), // type only
+		cat(tb, encVar(uint64(len(cv)+1), minWidth(uint64(len(cv)+1))), cv), // length one beyond the element
+		cat(tb, []byte{0x7f}, cv),
+		cat(tb, encVar(0xffff, 3), cv),
+		cat(tb, encVar(0xffffffff, 5)),
+		cat(tb, encVar(1<<63, 9)),
+		cat(tb, encVar(1<<63-1, 9), cv),
+		cat(tb, encVar(1<<64-1, 9), cv),
+		{0xfd, 0x00},                      // truncated 3-byte type
+		{0xfd},                            // lone multi-byte marker
+		cat(tb, []byte{0xfd, 0x00}),       // truncated 3-byte length
+		cat(tb, []byte{0xfe, 0x00, 0x00}), // truncated 5-byte length
+		cat(tb, []byte{0xff, 0x00}),       // truncated 9-byte length
+		cat(tb, encVar(uint64(len(cv)), minWidth(uint64(len(cv)))), short),    // value one byte short
+		cat(tb, encVar(uint64(len(short)), minWidth(uint64(len(short)))), cv), // trailing byte after the TLV
+	}
+}
+
+// replacedConsistently rebuilds the seed with the value of node i replaced by nv and the length of
+// node i and of every ancestor re-encoded (minimal width) so that the envelope stays well-formed.
+func replacedConsistently(seed []byte, nodes []tlvNode, i int, nv []byte) []byte {
 	nd := nodes[i]
-	cur := append(append([]byte{}, seed[nd.tOff:nd.lOff]...), 0) // the emptied element
-	lo, hi := nd.tOff, nd.end                                    // the range of the seed that cur replaces
+	cur := append(append(append([]byte{}, seed[nd.tOff:nd.lOff]...), encVar(uint64(len(nv)), minWidth(uint64(len(nv))))...), nv...)
+	lo, hi := nd.tOff, nd.end // the range of the seed that cur replaces
 	for p := nd.parent; p >= 0; p = nodes[p].parent {
 		pn := nodes[p]
 		val := append(append(append([]byte{}, seed[pn.vOff:lo]...), cur...), seed[hi:pn.end]...)
